@@ -53,6 +53,7 @@ type World struct {
 	escMemo      map[ssa.Value]bool
 	stableMemo   map[string]bool
 	copierMemo   map[*ssa.Function]string
+	copyKeyBusy  bool
 	reqBuildMemo *reqBuild
 	factMemo     map[*ssa.Function]*funcFacts
 	dead         map[edgeKey]bool
